@@ -19,12 +19,17 @@ Inductive mres := MViol (v : N) | MNext (regs : list reg).
 
 Definition member (k : string) (d : doc) : jval := match dget k d with Some v => v | None => JNull end.
 
+(* the metadata a registration response reports: its members by their exact names.  (Not unmarshal: a
+   member such as "SCOPE" in a response is a custom attribute echoed back - request.UnmarshalJSON keeps
+   every member whose name is not exactly a metadata name - and says nothing about the scope.) *)
+Definition resp_meta (d : doc) : meta := mkMeta d [].
+
 (* what an observer of the registration / update response d expects of a use of `secret`: the method in
    force at the endpoint is read off the reported metadata; a secret-based method accepts the secret
    reported with it and nothing else; `none` asks for nothing; other methods cannot be satisfied by
    these requests *)
 Definition should_work (cfg : dcfg) (r : reg) (ep : endpoint) (sm : smethod) (secret : id) : bool :=
-  let m := meta_of_doc (r_doc r) in
+  let m := resp_meta (r_doc r) in
   let meth := effective_method ep m in
   let right := andb (negb (is_nil secret)) (ideq secret (r_secret r)) in
   andb (ep_enabled cfg ep)
@@ -41,7 +46,7 @@ Definition should_work (cfg : dcfg) (r : reg) (ep : endpoint) (sm : smethod) (se
 (* a response that reports a secret-based method in force at an enabled endpoint must carry a secret,
    and one that reports none must not *)
 Definition secret_expected (cfg : dcfg) (d : doc) : bool :=
-  let m := meta_of_doc d in
+  let m := resp_meta d in
   existsb (fun ep => andb (ep_enabled cfg ep)
                           (match secret_method (effective_method ep m) with Some _ => true | None => false end))
           [EpToken; EpIntrospect; EpRevoke].
@@ -56,7 +61,7 @@ Definition mon_step (cfg : dcfg) (regs : list reg) (k : nat) (o : xop) (x : dcr_
               (andb (fresh_or_absent "client_secret" d (mint k KSecret))
                     (Bool.eqb (dhas "client_secret" d) (secret_expected cfg d))))))
       then MViol (viol 3 k)
-      else if negb (caps_ok_b cfg (meta_of_doc d)) then MViol (viol 5 k)
+      else if negb (caps_ok_b cfg (resp_meta d)) then MViol (viol 5 k)
       else MNext (mkReg cid (mint k KRegToken) [] (cred_of "client_secret" d) d :: regs)
   | XBase (Update cid t _ _), DDoc _ d =>
       match on_target regs k cid t x true with
@@ -72,7 +77,7 @@ Definition mon_step (cfg : dcfg) (regs : list reg) (k : nat) (o : xop) (x : dcr_
                       (andb (fresh_or_absent "client_secret" d (mint k KSecret))
                             (Bool.eqb (dhas "client_secret" d) (secret_expected cfg d))))))
               then MViol (viol 3 k)
-              else if negb (caps_ok_b cfg (meta_of_doc d)) then MViol (viol 5 k)
+              else if negb (caps_ok_b cfg (resp_meta d)) then MViol (viol 5 k)
               else
                 let r' := if d_rotation cfg
                           then mkReg cid (mint k KRegToken) (r_tok r :: r_old r) (cred_of "client_secret" d) d
